@@ -32,15 +32,17 @@ TRUSTED = ["astropy FITS codec = identity on (float64 data, PIXSCALE* header car
            "directories by every file case; targets that are directories / directory parts that are files are outside the model",
            "correspondence harness harness/c16.py (generators, snapshot of the temporary tree, Fraction(float) conversion)",
            "slim/native scatter of Array2D.native is modelled in its consuming form (C01 proves the scatter form equivalent)"]
-ASSUMPTIONS = ["the model follows the code as repaired by fixes/C16_array1d_hdu_flip.diff and fixes/C16_anisotropic_pixel_scale_header.diff "
-               "(Array1D.hdu_for_output does not flip; PIXSCALEY/PIXSCALEX cards for unequal scales): on a tree without them the 1-D hdu "
-               "route under flip_for_ds9 and every anisotropic hdu/header case is reported as a violation",
+ASSUMPTIONS = ["the model follows the code after the repairs 9d3d532 (Array1D.hdu_for_output does not flip) and 770955c (PIXSCALEY / "
+               "PIXSCALEX cards for unequal scales; fixes/C16_*.diff): on a tree without them the 1-D hdu route under flip_for_ds9 and "
+               "every anisotropic hdu/header case is reported as a violation",
                "header cards hold the pixel scale exactly: astropy formats a float card in 20 characters, so a scale needing more than "
                "16 significant digits together with an exponent (e.g. 2^-40) is NOT reproduced by the codec; generators use scales with short "
                "decimal expansions",
                "floating point is exact on the generated values (mask multiplication by 1.0/0.0, psf normalisation by a sum equal to 1)",
                "Mask2D.from_fits(resized_mask_shape=...) is decided only for the same-shape request (resizing is C14's subject); other "
-               "shapes are correspondence-only"]
+               "shapes are correspondence-only",
+               "Imaging is decided by the specification for pairwise independent targets that are fresh or overwritten (the hypotheses "
+               "of C16_imaging_roundtrip) and a PSF summing to one; refused / failing writes are correspondence-only"]
 
 # ----------------------------------------------------------------------------- printing
 def fr(x): return Fraction(float(x))
